@@ -1,5 +1,5 @@
-(* C13: what is proved about prim's total weight.  prim's tree is a spanning forest of the arc list, so by
-   kruskal's minimality it is never lighter than kruskal's result on the same edges (one half of "agree"). *)
+(* C13: prim's returned tree is a spanning forest of the arc list, so by kruskal's minimality it is never
+   lighter than kruskal's result on the same edges (first half of "agree"; the other half is PrimMin.v). *)
 From Coq Require Import List Arith ZArith Bool Lia Relations.
 From SV Require Import C20.UFSpec C20.UFUnion.
 From SV Require Import C13.Mst C13.MstSpec C13.GraphLemmas C13.ForestCount C13.Greedy C13.PrimBasics C13.PrimProofs
